@@ -145,6 +145,10 @@ def gen_case(rng, tier):
             continue
         dde = rng.choice([0, 0, 0, 2, 3])
         dt = rng.choice([F(1, 8), F(1, 16)])
+        tiny = rng.random() < 0.15
+        if tiny:
+            # delays that differ only in the third decimal (3/256, 1/128, 3/512) realised as chains of the same order with different rates
+            dde, dt = 3, F(1, 256)
         # one delayed variable per source operator, no parallel edges next to a delayed one (refused loudly by PyRates, see C09/C10)
         pairs = {}
         for e in es:
@@ -154,6 +158,11 @@ def gen_case(rng, tier):
             if pairs[(e["src"], e["tgt"])] > 1:
                 continue
             r = rng.random()
+            if tiny:
+                if r < 0.8:
+                    e["delay"] = C.q2s(rng.choice([F(3, 256), F(1, 128), F(3, 512)]))
+                    any_g = True
+                continue
             if r < 0.6:
                 d, s = rng.choice(DS)
                 e["delay"], e["spread"] = C.q2s(d), C.q2s(s)
@@ -167,16 +176,16 @@ def gen_case(rng, tier):
         sp = M.state_paths(flat)
         if len(set(sp)) != len(sp):
             continue
-        steps = rng.choice([4, 5, 6])
+        steps = 6 if tiny else rng.choice([4, 5, 6])
         case = {"mdl": mdl, "dde": dde, "run": {"T": C.q2s(dt * steps), "dt": C.q2s(dt), "solver": "euler", "vectorize": rng.random() < 0.5,
                                                  "outputs": {f"v{i}": p for i, p in enumerate(sp)}, "kwargs": ({"dde_approx": dde} if dde else {})},
-                "style": {}, "in_place": rng.random() < 0.5}
+                "style": {}, "in_place": rng.random() < 0.5, "approx": tiny}
         try:
             aug, info = oracle_aug(case)
             rows, mb = oracle_traj_flat(aug, case["run"])
         except (ValueError, RecursionError):
             continue
-        if mb > 50 or len(M.state_paths(aug)) > 40:
+        if (mb > 50 and not tiny) or len(M.state_paths(aug)) > 40:
             continue
         return case
     raise C.HarnessError("C11 generator could not produce an admissible case")
@@ -202,7 +211,7 @@ def check(tier, seed, replay=None):
         aug, info = oracle_aug(case, drv)
         orders = sorted({g["order"] for g in info})
         shared = any(g["edges"] > 1 for g in info)
-        rep.count(("vec" if case["run"]["vectorize"] else "novec") + ("-dde" if case.get("dde") else "") + ("-sharedkernel" if shared else ""),
+        rep.count(("vec" if case["run"]["vectorize"] else "novec") + ("-dde" if case.get("dde") else "") + ("-sharedkernel" if shared else "") + ("-tinydelays" if F(case["run"]["dt"]) < F(1, 100) else ""),
                   json.dumps(case, sort_keys=True), nontrivial=len(info) >= 2)
         flat0 = M.flatten(case["mdl"])
         sp = M.state_paths(flat0)
@@ -228,6 +237,9 @@ def check(tier, seed, replay=None):
         for key, p in case["run"]["outputs"].items():
             exp = [r[p] for r in rows]
             got = cols.get(key)
+            if case.get("approx") and got is not None and len(got) == len(exp) and \
+                    all(abs(F(g) - F(x)) <= F(1, 10 ** 9) * max(1, abs(F(x))) for g, x in zip(got, exp)):
+                continue      # tiny-delay stratum: more than 52 bits are needed, values are compared to 1e-9 against the exact trajectory
             if got != exp:
                 k0 = next((k for k in range(min(len(exp), len(got or []))) if got[k] != exp[k]), None)
                 dev.append(("trajectory-differs-from-the-augmented-system", {"variable": p, "first_wrong_sample": k0, "got": (got or [None])[k0] if k0 is not None else got,
